@@ -11,7 +11,7 @@ use grafeo_common::types::{EdgeId, LogicalType, NodeId, Value};
 use super::{Operator, OperatorError, OperatorResult};
 use crate::execution::DataChunk;
 use crate::execution::chunk::DataChunkBuilder;
-use crate::index::trie::{LeapfrogJoin, TrieIndex};
+use crate::index::trie::{LeapfrogJoin, TrieIndex, TrieIterator};
 
 /// Row identifier for reconstructing output: (input_index, chunk_index, row_index).
 type RowId = (usize, usize, usize);
@@ -109,18 +109,22 @@ impl LeapfrogJoinOperator {
             self.materialized_inputs.push(chunks);
         }
 
-        // Phase 2: Build TrieIndex for each input
+        // Phase 2: Build TrieIndex for each input. Every input lists one key column
+        // per join variable; the trie paths cover the variables all inputs share.
+        let depth = self.join_variable_count();
         for (input_idx, chunks) in self.materialized_inputs.iter().enumerate() {
             let mut trie = TrieIndex::new();
             let key_indices = &self.join_key_indices[input_idx];
 
             for (chunk_idx, chunk) in chunks.iter().enumerate() {
-                for row in 0..chunk.row_count() {
+                // Physical positions of the selected rows (an input may carry a
+                // selection vector, e.g. from a filter below the join)
+                for row in chunk.selected_indices() {
                     // Extract join key values and convert to path
                     if let Some(path) = self.extract_join_keys(chunk, row, key_indices) {
                         // Encode row location as EdgeId for trie storage
                         let row_id = Self::encode_row_id(input_idx, chunk_idx, row);
-                        trie.insert(&path, row_id);
+                        trie.insert(&path[..depth.min(path.len())], row_id);
                     }
                 }
             }
@@ -129,6 +133,15 @@ impl LeapfrogJoinOperator {
 
         self.materialized = true;
         Ok(())
+    }
+
+    /// Number of join variables: the key columns every input provides.
+    fn join_variable_count(&self) -> usize {
+        self.join_key_indices
+            .iter()
+            .map(Vec::len)
+            .min()
+            .unwrap_or(0)
     }
 
     /// Extracts join key values from a row and converts to NodeId path.
@@ -174,47 +187,18 @@ impl LeapfrogJoinOperator {
 
     /// Executes the leapfrog join to find all intersections.
     fn execute_leapfrog(&mut self) -> Result<(), OperatorError> {
-        if self.tries.is_empty() {
+        let depth = self.join_variable_count();
+        if self.tries.is_empty() || depth == 0 {
             return Ok(());
         }
 
-        // Create iterators for each trie at the first level
+        // Intersect the first join variable across all tries, then descend
+        // variable by variable below every common value.
         let iters: Vec<_> = self.tries.iter().map(|t| t.iter()).collect();
-
-        // Create leapfrog join
-        let mut join = LeapfrogJoin::new(iters);
-
-        // Find all intersections at the first level
-        while let Some(key) = join.key() {
-            // Collect all row IDs from each input that match this key
-            let mut row_ids_per_input: Vec<Vec<RowId>> = vec![Vec::new(); self.tries.len()];
-
-            // For each trie, collect all row IDs at this key
-            if let Some(child_iters) = join.open() {
-                for (input_idx, _child_iter) in child_iters.into_iter().enumerate() {
-                    // The child iterator points to the second level of the trie
-                    // We need to collect the edge IDs (our encoded row IDs) at this position
-                    self.collect_row_ids_at_key(
-                        &self.tries[input_idx],
-                        key,
-                        input_idx,
-                        &mut row_ids_per_input[input_idx],
-                    );
-                }
-            }
-
-            // Only add result if all inputs have matching rows
-            if row_ids_per_input.iter().all(|ids| !ids.is_empty()) {
-                self.results.push(JoinResult {
-                    key,
-                    row_ids: row_ids_per_input,
-                });
-            }
-
-            if !join.next() {
-                break;
-            }
-        }
+        let mut path = Vec::with_capacity(depth);
+        let mut results = Vec::new();
+        Self::leapfrog_level(&self.tries, iters, depth, &mut path, &mut results);
+        self.results = results;
 
         // Initialize expansion indices if we have results
         if !self.results.is_empty() {
@@ -224,39 +208,50 @@ impl LeapfrogJoinOperator {
         Ok(())
     }
 
-    /// Collects all row IDs from a trie at a specific key.
-    fn collect_row_ids_at_key(
-        &self,
-        trie: &TrieIndex,
-        key: NodeId,
-        input_idx: usize,
-        row_ids: &mut Vec<RowId>,
+    /// Intersects one join variable across all inputs.
+    ///
+    /// Below every value all inputs agree on, the next variable is intersected
+    /// the same way; at the last variable the rows stored under the complete key
+    /// path of each input form one join result (their cross product is expanded
+    /// lazily by `next()`).
+    fn leapfrog_level(
+        tries: &[TrieIndex],
+        iters: Vec<TrieIterator<'_>>,
+        depth: usize,
+        path: &mut Vec<NodeId>,
+        results: &mut Vec<JoinResult>,
     ) {
-        // Get iterator at the key's path
-        if let Some(edges) = trie.get(&[key]) {
-            for &edge_id in edges {
-                let decoded = Self::decode_row_id(edge_id);
-                // Verify input index matches (should always match)
-                if decoded.0 == input_idx {
-                    row_ids.push(decoded);
-                }
-            }
-        }
+        let mut join = LeapfrogJoin::new(iters);
 
-        // Also check children (for multi-level tries)
-        if let Some(iter) = trie.iter_at(&[key]) {
-            let mut iter = iter;
-            loop {
-                if let Some(child_key) = iter.key()
-                    && let Some(edges) = trie.get(&[key, child_key])
-                {
-                    for &edge_id in edges {
-                        row_ids.push(Self::decode_row_id(edge_id));
-                    }
+        while let Some(key) = join.key() {
+            path.push(key);
+
+            if path.len() == depth {
+                // Collect the row IDs each input stores under the full key path
+                let row_ids: Vec<Vec<RowId>> = tries
+                    .iter()
+                    .map(|trie| {
+                        trie.get(path)
+                            .map(|edges| edges.iter().map(|&e| Self::decode_row_id(e)).collect())
+                            .unwrap_or_default()
+                    })
+                    .collect();
+
+                // Only add result if all inputs have matching rows
+                if row_ids.iter().all(|ids: &Vec<RowId>| !ids.is_empty()) {
+                    results.push(JoinResult {
+                        key: path[0],
+                        row_ids,
+                    });
                 }
-                if !iter.next() {
-                    break;
-                }
+            } else if let Some(child_iters) = join.open() {
+                Self::leapfrog_level(tries, child_iters, depth, path, results);
+            }
+
+            path.pop();
+
+            if !join.next() {
+                break;
             }
         }
     }
